@@ -158,7 +158,7 @@ def scenario(sim):
     link = Link(sim, latency=((0.0, 0.01)[sim.choose(2)],) * 2)
     bpk = ssh.byzantine_packetizer("s" if victim == "client" else "c", plog, mutate_out=mutate_out)
     kw = {"server_pk": bpk} if victim == "client" else {"client_pk": bpk}
-    p = ssh.tapped_pair(sim, link=link, **kw)
+    p = ssh.tapped_pair(sim, link=link, plog=plog, **kw)
     for t in (p.tc, p.ts):
         ssh.configure(t, kex=kex)
     desc = {"family": fam, "kex": kex, "value": vname, "victim": victim, "valid": valid}
